@@ -85,7 +85,14 @@ func main() {
 			phaseConcurrent(r)
 			r.Finish()
 		}
-		w := buildWorld("replay", c.Format, c.R, true)
+		if c.IDSet == "long" {
+			ids, idSet = longIDs, "long"
+		}
+		tag := "replay"
+		if c.IDSet == "long" {
+			tag = "long-ids"
+		}
+		w := buildWorld(tag, c.Format, c.R, true)
 		defer w.Close()
 		switch c.Scenario {
 		case "reveal", "token", "storage", "hash":
@@ -185,6 +192,10 @@ func main() {
 		}
 	} else {
 		r.Capped("key relocation not run")
+	}
+	// 3a. long identities that differ only at the very end (reveal matrix and relocation, both formats)
+	if !capped {
+		phaseLongIdentities(r, k, all, &controls, *strictPub)
 	}
 	// 3b. identity of open connections under later handshakes
 	if !capped {
